@@ -1935,7 +1935,166 @@ async def queued_event_keeps_its_source():
     return all(out.values()), f"{out}"
 
 
-SCENARIOS = {f.__name__: f for f in (queued_event_keeps_its_source, failed_adds_of_unusual_shapes_change_nothing, partly_shadowed_factory_releases_its_waiter, refused_resource_of_a_failed_start_leaves_no_callback, registration_during_a_service_tasks_stop, annotations_mean_what_they_say, default_name_is_remapped_only_while_starting, parent_is_the_current_context_itself, refused_entry_changes_nothing, left_from_another_task_is_closed_all_the_same, factories_waiting_on_each_other_complete, nested_tree_publications_release_waiters, timeout_watches_every_tree, every_registration_of_a_component_is_torn_down, generic_alias_types_are_found_by_every_lookup, optional_injection_is_the_optional_lookup, start_value_and_failed_starts, hard_coded_kwargs_reach_the_child_as_they_are,
+async def closing_anothers_context_leaves_the_closers_own_alone():
+    """C12: tasks never disturb each other: a task that closes (calls __aexit__ on) a context ANOTHER task entered --
+    whatever that call does for the context -- keeps its own current context: inside its own block it is still that
+    block's context, a context it creates there gets that parent, and leaving its block restores what it had before"""
+    out = {}
+    async with Context() as root:
+        session = Context()
+        entered, release = anyio.Event(), anyio.Event()
+
+        async def opener():
+            async with Context():
+                await session.__aenter__()
+                entered.set()
+                await release.wait()
+
+        async def closer():
+            await entered.wait()
+            before = current_context()
+            async with Context() as mine:
+                try:
+                    await session.__aexit__(None, None, None)
+                except BaseException:  # noqa
+                    pass
+                out["still_mine"] = current_context() is mine
+                out["child_parent"] = Context().parent is mine
+            out["restored"] = current_context() is before
+            release.set()
+        try:
+            async with anyio.create_task_group() as tg:
+                tg.start_soon(opener)
+                tg.start_soon(closer)
+        except BaseException:  # noqa   (the opener's own block may complain about the hand-over: not our subject)
+            pass
+        out["root_still_current"] = current_context() is root
+    want = {"still_mine": True, "child_parent": True, "restored": True, "root_still_current": True}
+    return out == want, f"{out}"
+
+
+async def lookup_made_inside_awaited_after_the_block_is_refused():
+    """C13: after the block has been left every guarded operation raises RuntimeError and changes nothing -- what counts
+    is when the operation RUNS: a `ctx.get_resource(...)` coroutine created while the context was open and awaited
+    only after it has been closed is refused, calls no factory, stores nothing and announces nothing"""
+    calls = []
+    out = {}
+
+    def factory():
+        calls.append(1)
+        return A("made")
+    async with Context() as outer:
+        ctx = Context()
+        async with ctx:
+            ctx.add_resource(B("static"))
+            ctx.add_resource_factory(factory, types=[A])
+            pending = [ctx.get_resource(A), ctx.get_resource(B), ctx.get_resource(int, optional=True)]
+        for label, coro in zip(("factory", "static", "optional"), pending):
+            try:
+                r = await coro
+                out[label] = f"returned {r!r}"
+            except RuntimeError:
+                out[label] = "RuntimeError"
+            except BaseException as e:  # noqa
+                out[label] = type(e).__name__
+        out["factory_calls"] = len(calls)
+        out["closed"] = ctx.closed
+        out["outer_untouched"] = not outer.get_resources(A) and not outer.get_resources(B)
+    want = {"factory": "RuntimeError", "static": "RuntimeError", "optional": "RuntimeError", "factory_calls": 0,
+            "closed": True, "outer_untouched": True}
+    return out == want, f"{out}"
+
+
+async def overridden_default_types_need_not_exist():
+    """C14: the external configuration determines the tree: a child whose hard-coded default type (explicit, or derived
+    from its alias) names a plugin that is not installed is built from the type the external configuration gives
+    it, with the hard-coded keyword arguments merged in and its default resource name from the alias"""
+    from asphalt.core import Component, get_resources, start_component
+    made = []
+
+    class Cache(Component):
+        def __init__(self, **kw):
+            made.append(("Cache", dict(kw)))
+
+        async def start(self):
+            from asphalt.core import add_resource
+            add_resource(A("cache"))
+
+    class Parent(Component):
+        def __init__(self):
+            self.add_component("fancycache/sessions", ttl=5)
+            self.add_component("other", type="no_such_package.plugins:Thing", size=1)
+    err = None
+    names = None
+    async with Context():
+        try:
+            await start_component(Parent, {"components": {"fancycache/sessions": {"type": Cache, "ttl": 9},
+                                                          "other": {"type": Cache}}})
+            names = sorted(get_resources(A))
+        except BaseException as e:  # noqa
+            err = f"{type(e).__name__}: {str(e)[:120]}"
+    want = [("Cache", {"ttl": 9}), ("Cache", {"size": 1})]
+    ok = err is None and sorted(made, key=str) == sorted(want, key=str) and names == ["default", "sessions"]
+    return ok, f"error={err}, constructed={made}, resource names={names}"
+
+
+async def injected_lookups_happen_in_signature_order():
+    """C19: the decorated call behaves as the explicit lookups made ONE AFTER THE OTHER in the order of the signature --
+    optional and mandatory parameters alike: with factories whose products depend on what has been generated before,
+    the injected function receives what the explicit sequence receives"""
+    from typing import Optional
+    from asphalt.core import get_resource, get_resource_nowait
+
+    class First:
+        def __init__(self, n):
+            self.n = n
+
+    class Second:
+        def __init__(self, n):
+            self.n = n
+
+    def build():
+        made = []
+
+        def make_first():
+            made.append("first")
+            return First(len(made))
+
+        def make_second():
+            made.append("second")
+            return Second(len(made))
+        return made, make_first, make_second
+
+    @inject
+    def sync_fn(*, a: Optional[First] = resource(), b: Second = resource()):
+        return a.n, b.n
+
+    @inject
+    async def async_fn(*, a: Optional[First] = resource(), b: Second = resource()):
+        return a.n, b.n
+    out = {}
+    for label in ("sync", "async"):
+        results = []
+        for how in ("explicit", "injected"):
+            made, mf, ms = build()
+            async with Context() as ctx:
+                ctx.add_resource_factory(mf, types=[First])
+                ctx.add_resource_factory(ms, types=[Second])
+                if how == "explicit" and label == "sync":
+                    r = (get_resource_nowait(First, optional=True).n, get_resource_nowait(Second).n)
+                elif how == "explicit":
+                    r = ((await get_resource(First, optional=True)).n, (await get_resource(Second)).n)
+                elif label == "sync":
+                    r = sync_fn()
+                else:
+                    r = await async_fn()
+            results.append((r, tuple(made)))
+        out[label] = results[0] == results[1]
+        out[label + "_detail"] = results
+    return out["sync"] and out["async"], f"{out}"
+
+
+SCENARIOS = {f.__name__: f for f in (injected_lookups_happen_in_signature_order, closing_anothers_context_leaves_the_closers_own_alone, lookup_made_inside_awaited_after_the_block_is_refused, overridden_default_types_need_not_exist, queued_event_keeps_its_source, failed_adds_of_unusual_shapes_change_nothing, partly_shadowed_factory_releases_its_waiter, refused_resource_of_a_failed_start_leaves_no_callback, registration_during_a_service_tasks_stop, annotations_mean_what_they_say, default_name_is_remapped_only_while_starting, parent_is_the_current_context_itself, refused_entry_changes_nothing, left_from_another_task_is_closed_all_the_same, factories_waiting_on_each_other_complete, nested_tree_publications_release_waiters, timeout_watches_every_tree, every_registration_of_a_component_is_torn_down, generic_alias_types_are_found_by_every_lookup, optional_injection_is_the_optional_lookup, start_value_and_failed_starts, hard_coded_kwargs_reach_the_child_as_they_are,
                                      overriding_signal_has_its_own_event_class, second_half_runs_at_the_outer_teardown, rejected_add_registers_no_callback,
                                      wait_finished_means_completely_finished, dead_iterator_inside_its_block_disturbs_nobody,
                                      racing_lookups_generate_once, failing_factory_leaves_the_current_context_alone,
